@@ -82,6 +82,36 @@ def parse (s : String) : Option (List Stat) := do
   let r ← popStats st.length st
   pure r.1
 
+def showNames (ns : List Name) : String := Drv.joinWith "-" (ns.map toString)
+
+mutual
+def encExpr : Expr → List String
+  | .name n => [s!"n{n}"]
+  | .lit => ["l"]
+  | .call f args => encExprs args ++ [s!"c{f}:{args.length}"]
+  | .func ps body => encBlock body ++ [s!"F{showNames ps}:{body.length}"]
+def encExprs : List Expr → List String
+  | [] => []
+  | e :: es => encExpr e ++ encExprs es
+def encStat : Stat → List String
+  | .locl ns vals => encExprs vals ++ [s!"L{showNames ns}:{vals.length}"]
+  | .assign ns vals => encExprs vals ++ [s!"A{showNames ns}:{vals.length}"]
+  | .localFunc n ps body => encBlock body ++ [s!"U{n};{showNames ps}:{body.length}"]
+  | .funcStat n ps body => encBlock body ++ [s!"G{n};{showNames ps}:{body.length}"]
+  | .forNum v e1 e2 body => encExpr e1 ++ encExpr e2 ++ encBlock body ++ [s!"N{v}:{body.length}"]
+  | .forIn vs e body => encExpr e ++ encBlock body ++ [s!"I{showNames vs}:{body.length}"]
+  | .while_ c body => encExpr c ++ encBlock body ++ [s!"W:{body.length}"]
+  | .repeat_ body c => encBlock body ++ encExpr c ++ [s!"R:{body.length}"]
+  | .do_ body => encBlock body ++ [s!"D:{body.length}"]
+  | .if_ c t e => encExpr c ++ encBlock t ++ encBlock e ++ [s!"T:{t.length}:{e.length}"]
+  | .callS f args => encExprs args ++ [s!"S{f}:{args.length}"]
+def encBlock : List Stat → List String
+  | [] => []
+  | st :: rest => encStat st ++ encBlock rest
+end
+
+def encode (p : List Stat) : String := Drv.joinWith "," (encBlock p)
+
 def showRes (rs : List Res) : String :=
   Drv.joinWith "," (rs.map fun r => s!"{r.1}:{match r.2 with | some d => toString d | none => "g"}")
 
@@ -103,6 +133,17 @@ def handle (op : String) (args : List String) : Option String :=
   | "alpha", [p, tok, new] => do
     let q := applyRename (← parse p) (← tok.toNat?) (← new.toNat?)
     pure ("ok " ++ showRes (implementation q) ++ "|" ++ showRes (reference q))
+  -- the program after the rename at `tok`: by edit positions, and whether α-renaming the target
+  -- declaration through the environment gives the same program
+  | "renamed", [p, tok, new] => do
+    let prog ← parse p
+    let tok ← tok.toNat?
+    let new ← new.toNat?
+    let q := applyRename prog tok new
+    let same := match targetOf (implementation prog) tok with
+      | some d => encode (alphaProg d new prog) == encode q
+      | none => true
+    pure ("ok " ++ encode q ++ (if same then " same" else " DIFF"))
   | _, _ => none
 
 end Drv.Scope
